@@ -220,7 +220,7 @@ pub fn gen_scenario(r: &mut Rng, seed: u64) -> Scenario {
         peers.push(PeerSpec { addr: addr(k), id: peer_id(k), entry: Entry::Dialled { from_announce: 0 }, make: Box::new(move |nth| if nth > 1 { None } else { Some(seeder(s2.clone())) }), chunk: 0, pipe: 1 << 20 });
     }
     let desc = json!({"seed": seed, "pieces": n, "horizon_ms": horizon, "connections": pdesc});
-    Scenario { cfg: SimCfg { torrent, peers, tracker: vec![], failpoints: None, max_virtual_ms: horizon, stop_on_extract: false, linger_ms: 0, disk_on: disk_never, seed, tracker_fn: None, driver: None }, desc, plans }
+    Scenario { cfg: SimCfg { torrent, peers, tracker: vec![], failpoints: None, max_virtual_ms: horizon, stop_on_extract: false, linger_ms: 0, disk_on: disk_never, seed, pre: None, tracker_fn: None, driver: None }, desc, plans }
 }
 
 /// Like sim::peers::scripted, but the messages are logged structurally (the bytes are whole
